@@ -60,7 +60,7 @@ REQUIRED = dict(
 NLAYERS = list(range(2, 61)) + [100]
 FILL_POOL = ['H2', 'He', 'Ne', 'N2', 'CO2', 'Ar', 'O2']
 TRACE_POOL = ['H2O', 'CH4', 'CO', 'NH3', 'HCN', 'TiO', 'VO', 'C2H2', 'C2H6', 'SO2', 'H2S', 'SiO', 'Na', 'K', 'FeH', 'PH3',
-              'C4H10', 'C10H8', 'HCl', 'O3', 'NO2', 'Kr']
+              'C4H10', 'C10H8', 'HCl', 'O3', 'NO2', 'Kr', 'CH3OH', 'HCOOH', 'CH3COOH', 'H2NNH2', 'C2H5OH', 'NH2OH', 'HC3N', 'H2SO4']
 POWER_TYPES = ['H2O', 'TiO', 'VO', 'Na', 'K', 'H2']
 
 
